@@ -37,6 +37,9 @@ func DecodeStruct(b []byte) (dataSize int, size int, err error) {
 		return
 	}
 	size += n + int(dataSize_)
+	if len(b) < size {
+		return 0, 0, errors.New("decode struct: invalid data")
+	}
 
 	return int(dataSize_), size, nil
 }
